@@ -5,14 +5,16 @@ Proof:  AFV/Props/C22.lean
           named_sets_correct   the symbol table Einsum._eval_expressions builds binds All/Inputs/…/tensor
                                names to what the documentation says, all in the space U = the Einsum's tensors
           other_partition / overlap_rejected / other_twice_rejected / accepted_disjoint
-          persistent_named_set_counterexample / persistent_named_set_partial   (known finding)
+          final_named / arch_expr_setalgebra / persistent_named_set   the table the architecture sees; Persistent =
+                               tensors persistent after evaluation, also with workload.persistent_tensors (fix 629ad68)
 Model:  AFV/Model/SetAlg.lean (InvertibleSet, eval_set_expression, eval_set_expression_dict,
         _eval_tensor2number), AFV/Model/Renames.lean (Einsum._eval_expressions symbol table)
 Spec:   AFV/Spec/SetAlg.lean (holds, leaf, specTable, specValue, specDict)
 Tie:    correspondence through Spec.from_yaml(...)._spec_eval_expressions(einsum_name=…):
         every expression sits in a Memory's `tensors.keep`, every dictionary in a Memory's
         `bits_per_value`; observables = evaluated instance sets / {tensor: value} / EvaluationError.
-        Judge = Lean spec; the Lean model is compared as well (tie) and classifies known findings.
+        Judge = Lean spec; the Lean model is compared as well (tie). The witness of the repaired Persistent defect
+        is a regression case in corpus/C22 and its mechanism keeps its own classifier key.
 """
 from __future__ import annotations
 
@@ -197,7 +199,7 @@ class Runner:
                         ctx.case({"k": "named", "e": e["accesses"], "n": x, "pt": case["workload"]["persistent_tensors"]},
                                  nontrivial=bool(sv.get("ok")), branches=["named:" + (x if x in S.RESERVED else "tensor")])
                     if _norm(iv) != _norm(sv):
-                        problems.append({"kind": "named", "einsum": en, "name": x, "expr": x, "impl": iv, "spec": sv, "model": mv})
+                        problems.append({"kind": "named", "einsum": en, "index": i, "name": x, "expr": x, "impl": iv, "spec": sv, "model": mv})
                     elif mv is not None and _norm(iv) != _norm(mv):
                         self.tie_mismatch.append({"kind": "named", "einsum": en, "name": x, "impl": iv, "model": mv, "case": case})
                     continue
@@ -337,17 +339,37 @@ class Runner:
                     yield c
 
     # ---- classification of a (minimised) failing case
+    def legacy_persistent(self, case, p) -> bool:
+        """Is the observed value what the code produced before fix 629ad68 — `Persistent` = the flagged
+        tensors only, i.e. the specified value of the same slot when workload.persistent_tensors is dropped
+        — while the specified value (with persistent_tensors) is different?"""
+        if not case["workload"].get("persistent_tensors") or p["kind"] not in ("named", "expr", "dict") or "index" not in p:
+            return False
+        c2 = copy.deepcopy(case)
+        c2["workload"]["persistent_tensors"] = None
+        try:
+            rep = self.lean(with_leaves(c2))
+        except Exception:
+            return False
+        se = S.lean_einsum(rep["spec"], p["einsum"])
+        if se is None:
+            return False
+        slot = se["dicts" if p["kind"] == "dict" else "exprs"]
+        if p["index"] >= len(slot):
+            return False
+        n = _norm_dict if p["kind"] == "dict" else _norm
+        return n(slot[p["index"]]) == n(p["impl"]) != n(p["spec"])
+
     def classify(self, case, p) -> tuple[str, str]:
         w = case["workload"]
         pt = w.get("persistent_tensors")
-        same_as_model = _norm(p.get("impl")) == _norm(p.get("model")) if p["kind"] != "dict" else _norm_dict(p.get("impl")) == _norm_dict(p.get("model"))
         if p["kind"] == "named":
-            if p["name"] == "Persistent" and pt and same_as_model:
+            if p["name"] == "Persistent" and pt and self.legacy_persistent(case, p):
                 return KEY_PERSISTENT, "the named set Persistent does not contain a tensor made persistent by workload.persistent_tensors"
             return f"named-set:{p['name'] if p['name'] in S.RESERVED else 'tensor-name'}", f"named set {p['name']} is not what the documentation says"
         if p["kind"] == "expr":
             t = S.parse_expr(p["expr"])
-            if t == ["n", "Persistent"] and pt and same_as_model:
+            if t == ["n", "Persistent"] and pt and self.legacy_persistent(case, p):
                 return KEY_PERSISTENT, "`keep: Persistent` does not contain a tensor made persistent by workload.persistent_tensors"
             if t[0] == "n":
                 return f"leaf:{t[1] if t[1] in S.RESERVED else 'tensor-or-rename'}", f"leaf {t[1]} evaluates to the wrong set"
@@ -355,7 +377,7 @@ class Runner:
         if p["kind"] == "dict":
             iv, sv = p["impl"], p["spec"]
             names = [n for k, _ in p["dict"] for n in S.names_of(S.parse_expr(k))]
-            if "Persistent" in names and pt and same_as_model:
+            if "Persistent" in names and pt and self.legacy_persistent(case, p):
                 return KEY_PERSISTENT, "a dictionary key using Persistent misses a tensor made persistent by workload.persistent_tensors"
             n_other = sum(1 for k, _ in p["dict"] if "Other" in S.names_of(S.parse_expr(k)))
             if "err" in sv and "err" not in iv:
@@ -371,21 +393,20 @@ class Runner:
         """Turn discrepancies impl≠spec into fail() calls (minimised + classified)."""
         ctx = self.ctx
         seen = set()
+        n_same = {}
         for p in problems:
-            # cheap classification first (justified by persistent_named_set_partial: the model differs from
-            # the spec only through Persistent when persistent_tensors is set)
-            quick = None
-            pt = case["workload"].get("persistent_tensors")
-            if pt and p["kind"] in ("expr", "named", "dict") and p.get("model") is not None:
+            # after a few fully minimised instances of the (formerly known, now repaired) Persistent mechanism,
+            # further instances are classified directly by the same test the classifier applies to minimised cases
+            if self.n_min >= 3 and self.legacy_persistent(with_leaves(case), p):
                 mentions = (p["kind"] == "named" and p["name"] == "Persistent") or \
                     (p["kind"] == "expr" and "Persistent" in S.names_of(S.parse_expr(p["expr"]))) or \
                     (p["kind"] == "dict" and any("Persistent" in S.names_of(S.parse_expr(k)) for k, _ in p["dict"]))
-                eq = _norm_dict(p["impl"]) == _norm_dict(p["model"]) if p["kind"] == "dict" else _norm(p["impl"]) == _norm(p["model"])
-                if mentions and eq and self.n_min >= 2:
-                    quick = KEY_PERSISTENT
-            if quick:
-                ctx.fail(quick, "Persistent ignores workload.persistent_tensors", {"case": case, "problem": p})
-                continue
+                if mentions:
+                    n_same[KEY_PERSISTENT] = n_same.get(KEY_PERSISTENT, 0) + 1
+                    if n_same[KEY_PERSISTENT] <= 1:
+                        ctx.fail(KEY_PERSISTENT, "Persistent ignores workload.persistent_tensors (not minimised)",
+                                 {"case": case, "problem": p})
+                    continue
             self.n_min += 1
             if self.n_min <= 12:
                 mc, mp = self.minimise(case, p)
@@ -490,10 +511,7 @@ def run(ctx: Ctx):
         case = body["case"]
         ctx.dist("corpus")
         problems, _ = rn.evaluate(case)
-        if body.get("expect_known") and not any(True for _ in problems):
-            # the recorded witness of a known finding no longer fails: the model (which reproduces it) no longer
-            # corresponds to the code
-            rn.tie_mismatch.append({"kind": "corpus-witness-no-longer-fails", "file": f.name, "case": case})
+        # regression cases (witnesses of repaired defects): they must pass; a problem here is judged like any other
         rn.judge(case, problems)
 
     # ---- generated cases
